@@ -112,6 +112,8 @@ Variable pv : N.
 Variable sv : N.
 Variable bound : N.
 Variable u : counts.
+Variable fl : list (N * nat).
+Variable W : world.
 
 Lemma aiis_frame l t ex c c' : c <= t < c' -> lut_frame l (snd (aiis u l t ex)) c c'.
 Proof. intros Ht w Hw. apply aiis_lut. lia. Qed.
@@ -204,9 +206,9 @@ Lemma keep_trans sc E1 E2 E3 : keep sc E1 E2 -> keep sc E2 E3 -> keep sc E1 E3.
 Proof. intros H1 H2 v Hv. rewrite (H2 v Hv). apply H1. exact Hv. Qed.
 (* a strict (temporaries only) frame keeps every user binding that exists; the ones that do not exist stay away *)
 Lemma keep_lframe sc e st E stL c c' E' stL' :
-  rel pv bound sc e st E stL -> lframe c c' E stL E' stL' -> bound <= c -> keep sc E E'.
+  rel pv sv bound u fl W sc e st E stL -> lframe c c' E stL E' stL' -> bound <= c -> keep sc E E'.
 Proof.
-  intros Hrel Hf Hb v Hv. destruct (r_vars _ _ _ _ _ _ _ Hrel v Hv) as (cc & x & p & _ & _ & Hp & _).
+  intros Hrel Hf Hb v Hv. destruct (r_vars _ _ _ _ _ _ _ _ _ _ _ Hrel v Hv) as (cc & x & p & _ & _ & Hp & _).
   rewrite Hp. apply (lf_incl _ _ _ _ _ _ Hf). exact Hp.
 Qed.
 
@@ -214,15 +216,16 @@ Qed.
 Definition okstepS (sc sc' : list N) (e' : senv) (st' : sstate) (F : list N) (c c' : N)
            (E : env) (stL : state) (b : block) (E' : env) (stL' : state) (F' : list N) : Prop :=
   ExecS E b stL (ROk (E', SigNormal) stL') /\ wframe bound c c' E stL E' stL' /\
-  rel pv bound sc' e' st' E' stL' /\ F_new F F' c c' /\ keep sc E E'.
+  rel pv sv bound u fl W sc' e' st' E' stL' /\ F_new F F' c c' /\ keep sc E E'.
 
 Definition okstep (sc : list N) (e : senv) (st' : sstate) (F : list N) (c c' : N)
            (E : env) (stL : state) (b : block) (E' : env) (stL' : state) (F' : list N) : Prop :=
   okstepS sc sc e st' F c c' E stL b E' stL' F'.
 
-(* the Sylt environment after a statement agrees with the one before on the old scope and on print *)
+(* the Sylt environment after a statement agrees with the one before on the old scope, on print and on the
+   callable functions *)
 Definition sext (sc : list N) (e e' : senv) : Prop :=
-  forall v, In v sc \/ v = pv -> SyltSem.lookup e' v = SyltSem.lookup e v.
+  forall v, In v sc \/ v = pv \/ In v (fnames fl) -> SyltSem.lookup e' v = SyltSem.lookup e v.
 
 (* ---- ends of the emitted block that are not normal: a Lua error for a failed <=>, the signals break /
    goto L<ctx> for break / continue.  After an abrupt exit the relation holds again seen from the
@@ -236,9 +239,9 @@ Definition exit_ok {A} (ctx : N) (sc : list N) (e : senv) (c c' : N) (E : env) (
   match r with
   | SyltSem.RStop o => exists ev stL', rl = RErr ev stL' /\ SyltSem.trace st' = s_out stL'
   | SyltSem.RAbrupt SyltSem.CBreak =>
-      exists E' stL', rl = ROk (E', SigBreak) stL' /\ rel pv bound sc e st' E stL' /\ xkeep c c' E stL stL'
+      exists E' stL', rl = ROk (E', SigBreak) stL' /\ rel pv sv bound u fl W sc e st' E stL' /\ xkeep c c' E stL stL'
   | SyltSem.RAbrupt SyltSem.CContinue =>
-      exists E' stL', rl = ROk (E', SigGoto (fmt_label ctx)) stL' /\ rel pv bound sc e st' E stL' /\ xkeep c c' E stL stL'
+      exists E' stL', rl = ROk (E', SigGoto (fmt_label ctx)) stL' /\ rel pv sv bound u fl W sc e st' E stL' /\ xkeep c c' E stL stL'
   | _ => False
   end.
 
@@ -314,9 +317,9 @@ Definition P_eval (n : nat) : Prop :=
   forall g k x ctx c code v c' e st r st' sc l E stL F,
     SyltSem.eval n e x st = (r, st') ->
     expression g x ctx c = Ok ((code, v), c') ->
-    frag_expr pv sv bound k sc x = true ->
+    frag_expr pv sv bound fl k sc x = true ->
     ucovers u code -> ctx_ok l F E c c' ->
-    rel pv bound sc e st E stL ->
+    rel pv sv bound u fl W sc e st E stL ->
     interesting r ->
     exists b l', cshape l code b l' c c' /\ c <= v /\ v < c' /\ eval_post ctx sc e F c c' E stL b l' v r st'.
 
@@ -332,14 +335,14 @@ Definition stmt_post (ctx : N) (sc sc' : list N) (e : senv) (F : list N) (c c' :
 Definition P_exec (n : nat) : Prop :=
   forall g k s ctx c code c' e st r st' sc sc' l E stL F,
     SyltSem.exec n e s st = (r, st') -> statement g s ctx c = Ok (code, c') ->
-    frag_stmt pv sv bound k sc s = Some sc' -> ucovers u code -> ctx_ok l F E c c' -> rel pv bound sc e st E stL ->
+    frag_stmt pv sv bound fl k sc s = Some sc' -> ucovers u code -> ctx_ok l F E c c' -> rel pv sv bound u fl W sc e st E stL ->
     interesting r ->
     exists b l', cshape l code b l' c c' /\ stmt_post ctx sc sc' e F c c' E stL b r st'.
 
 Definition P_execs (n : nat) : Prop :=
   forall g k ss ctx c cs c' e st r st' sc sc' l E stL F,
     SyltSem.exec_block n e ss st = (r, st') -> mapM (fun s => statement g s ctx) ss c = Ok (cs, c') ->
-    frag_stmts pv sv bound k sc ss = Some sc' -> ucovers u (concat cs) -> ctx_ok l F E c c' -> rel pv bound sc e st E stL ->
+    frag_stmts pv sv bound fl k sc ss = Some sc' -> ucovers u (concat cs) -> ctx_ok l F E c c' -> rel pv sv bound u fl W sc e st E stL ->
     interesting r ->
     exists b l', cshape l (concat cs) b l' c c' /\ stmt_post ctx sc sc' e F c c' E stL b r st'.
 
@@ -349,7 +352,7 @@ Definition bv_post (ctx : N) (sc : list N) (e : senv) (lo hi : N) (E : env) (stL
            (r : SyltSem.res sval) (st' : sstate) : Prop :=
   match r with
   | SyltSem.RVal v =>
-      exists E' stL', ExecS E b stL (ROk (E', SigNormal) stL') /\ rel pv bound sc e st' E stL' /\
+      exists E' stL', ExecS E b stL (ROk (E', SigNormal) stL') /\ rel pv sv bound u fl W sc e st' E stL' /\
                       xkeep lo hi E stL stL' /\ vrel v (get_cell stL' p)
   | _ => exit_post ctx sc e lo hi E stL b r st'
   end.
@@ -358,9 +361,9 @@ Definition P_bv (n : nat) : Prop :=
   forall g k body ctx c code c' e st r st' sc sc' l E stL F out p lo hi,
     SyltSem.block_value n e body st = (r, st') ->
     lower_eblock (statement g) (expression g) out body ctx c = Ok (code, c') ->
-    frag_stmts pv sv bound k sc body = Some sc' -> ucovers u code -> ctx_ok l F E c c' -> rel pv bound sc e st E stL ->
+    frag_stmts pv sv bound fl k sc body = Some sc' -> ucovers u code -> ctx_ok l F E c c' -> rel pv sv bound u fl W sc e st E stL ->
     bound <= lo -> lo <= c -> c' <= hi -> lo <= out < hi -> ~ (c <= out < c') ->
-    sget (fmt_var out) E = Some p -> get_cell stL p = VNil -> alut_get l out = None -> 1 <= count_of u out ->
+    sget (fmt_var out) E = Some p -> (forall lv, ~ w_IL W p lv) -> get_cell stL p = VNil -> alut_get l out = None -> 1 <= count_of u out ->
     interesting r ->
     exists b l', cshape l code b l' c c' /\ bv_post ctx sc e lo hi E stL b p r st'.
 
@@ -368,25 +371,67 @@ Definition P_bv (n : nat) : Prop :=
 Definition L_expr (g : nat) : Prop :=
   forall k x ctx c code v c' sc l,
     expression g x ctx c = Ok ((code, v), c') ->
-    frag_expr pv sv bound k sc x = true ->
+    frag_expr pv sv bound fl k sc x = true ->
     exists b l', cshape l code b l' c c' /\ c <= v /\ v < c'.
+
+(* ---- functions.  The body of a function, run from the environment of a call: it falls off the end (the
+   value is nil) or returns the value of its last expression; the relation holds at the end for the scope
+   the body ends with, which extends the one it started with ---- *)
+Definition fb_post (sc : list N) (e : senv) (E : env) (stL : state) (b : block)
+           (r : SyltSem.res sval) (st' : sstate) : Prop :=
+  match r with
+  | SyltSem.RVal v =>
+      exists E' sg stL' sc' e',
+        ExecS E b stL (ROk (E', sg) stL') /\
+        ((sg = SigNormal /\ v = SV Values.VLuaNil) \/ (exists lv, sg = SigReturn [lv] /\ vrel v lv)) /\
+        rel pv sv bound u fl W sc' e' st' E' stL' /\ sext sc e e' /\ incl sc sc' /\ keep sc E E' /\
+        (s_ncell stL <= s_ncell stL')%positive
+  | SyltSem.RStop o => exists ev stL', ExecS E b stL (RErr ev stL') /\ SyltSem.trace st' = s_out stL'
+  | SyltSem.RAbrupt _ => True
+  end.
+
+Definition P_fb (n : nat) : Prop :=
+  forall g k body ctx c code c' e st r st' sc sc' l E stL F,
+    SyltSem.block_value n e body st = (r, st') ->
+    lower_fbody (statement g) (expression g) body ctx c = Ok (code, c') ->
+    frag_stmts pv sv bound fl k sc body = Some sc' -> ucovers u code -> ctx_ok l F E c c' ->
+    rel pv sv bound u fl W sc e st E stL -> interesting r ->
+    exists b l', cshape l code b l' c c' /\ fb_post sc e E stL b r st'.
+
+(* a call seen from the caller: the temporaries of the caller keep their values *)
+Definition call_frame (E : env) (stL stL' : state) : Prop :=
+  (s_ncell stL <= s_ncell stL')%positive /\
+  forall t p, bound <= t -> sget (fmt_var t) E = Some p -> get_cell stL' p = get_cell stL p.
+
+Definition P_apply (n : nat) : Prop :=
+  forall d avs lvs sc e st E stL r st',
+    rel pv sv bound u fl W sc e st E stL -> In d (w_funs W) -> In (fd_var d) (fnames fl) ->
+    Forall2 vrel avs lvs ->
+    SyltSem.apply n (SyltSem.SClos (fd_ci d)) avs st = (r, st') -> interesting r ->
+    match r with
+    | SyltSem.RVal v =>
+        exists vs stL', Call (VFun (fd_fid d)) lvs stL (ROk vs stL') /\ vrel v (first vs) /\
+                        rel pv sv bound u fl W sc e st' E stL' /\ call_frame E stL stL'
+    | SyltSem.RStop o => exists ev stL', Call (VFun (fd_fid d)) lvs stL (RErr ev stL') /\ SyltSem.trace st' = s_out stL'
+    | SyltSem.RAbrupt _ => False
+    end.
 
 (* a value computed by a single iis instruction at the end *)
 Lemma finish_iis sc e st F c c' E stL l t ex sv_ :
-  rel pv bound sc e st E stL -> ctx_ok l F E c c' -> c <= t < c' -> denotes F E stL ex sv_ ->
+  rel pv sv bound u fl W sc e st E stL -> ctx_ok l F E c c' -> c <= t < c' -> denotes F E stL ex sv_ ->
   exists E' stL' F',
     okstep sc e st F c c' E stL (fst (aiis u l t ex)) E' stL' F' /\
     (1 <= count_of u t -> denotes F' E' stL' (aexpand (snd (aiis u l t ex)) t) sv_).
 Proof.
   intros Hrel [Hb Hl HF HE] Ht Hd.
-  destruct (op_iis u F E stL l t ex sv_ c c') as (E' & stL' & F' & Hx & Hfr & Ho & HF' & Hden);
+  destruct (op_iis u F E stL l t ex sv_ c c') as (E' & stL' & F' & Hx & Hfr & Ho & HF' & Hden & Hrl);
     try assumption.
-  - apply (r_wf _ _ _ _ _ _ _ Hrel).
-  - apply (r_linv _ _ _ _ _ _ _ Hrel).
+  - apply (r_wf _ _ _ _ _ _ _ _ _ _ _ Hrel).
+  - apply (r_linv _ _ _ _ _ _ _ _ _ _ _ Hrel).
   - apply HE. exact Ht.
   - apply Hl. left. exact Ht.
   - exists E', stL', F'. split; [|exact Hden].
-    split; [exact Hx|]. split; [apply lframe_w; exact Hfr|]. split; [eapply rel_lframe; eassumption|].
+    split; [exact Hx|]. split; [apply lframe_w; exact Hfr|]. split; [apply Hrl; [lia | exact Hrel]|].
     split; [|eapply keep_lframe; eassumption].
     destruct HF' as [->| ->]; [apply F_new_refl|].
     split; [apply incl_tl, incl_refl|]. intros t' [<-|Ht']; [right; exact Ht | left; exact Ht'].
